@@ -22,6 +22,10 @@ C03 — line-protocol driver of the replace-protocol model (core only).
         one pass of the level-compaction planner over the ordered files of a measurement (in
         the order the shard keeps them); a plan is printed as the indexes of its files
 
+  fullplan to=<l> parquet=<p> files=<level>:<seq>:<ext>,…
+        → skipped | refused | groups <i,i,…>@<level>;…
+        what one measurement contributes to a full-compaction plan (low-level mode when to > 0)
+
 Entries are `o/<name>` (measurement directory) or `u/<name>` (out-of-order sub-directory);
 a name ending in the regenerated `.init` suffix is a temporary entry.  `files=` of a reorg line
 lists the data files before the reorganisation in the order the shard keeps them (ascending
@@ -29,6 +33,7 @@ sequence): ordered files first, then out-of-order files.
 -/
 import OG.C03.Multi
 import OG.C03.Plan
+import OG.C03.FullPlan
 
 namespace OG.C03
 
@@ -142,6 +147,25 @@ def step (line : String) : String :=
           let idxOf (f : PF) : Nat := (fs.findIdx? (· == f)).getD fs.length
           "plans " ++ String.intercalate ";" ((mmsPlan level minN fs).map fun g =>
             String.intercalate "," (g.map fun f => toString (idxOf f)))
+      | none => "bad-op"
+    | _, _, _ => "bad-op"
+  | "fullplan" :: rest =>
+    match (kvOf rest "to").bind (·.toNat?), (kvOf rest "parquet").bind (·.toNat?), kvOf rest "files" with
+    | some toLevel, some parquet, some files =>
+      let parsed := (splitList files).map fun t =>
+        match (t.splitOn ":").map (·.toNat?) with
+        | [some l, some sq, some e] => some (⟨l, sq, e⟩ : PF)
+        | _ => none
+      match parsed.mapM id with
+      | some fs =>
+        if !sortedPF fs then "bad-op"
+        else
+          let idxOf (f : PF) : Nat := (fs.findIdx? (· == f)).getD fs.length
+          match buildFullPlan toLevel parquet fs with
+          | .skipped => "skipped"
+          | .refused => "refused"
+          | .groups gs => "groups " ++ String.intercalate ";" (gs.map fun (g, l) =>
+              String.intercalate "," (g.map fun f => toString (idxOf f)) ++ "@" ++ toString l)
       | none => "bad-op"
     | _, _, _ => "bad-op"
   | "mcrash" :: rest =>
